@@ -19,7 +19,9 @@ F32_MAX = struct.unpack("<f", b"\xff\xff\x7f\x7f")[0]
 F32_MIN_SUB = struct.unpack("<f", b"\x01\x00\x00\x00")[0]
 
 STRINGS = ["", "a", "hello", "héllo wörld", "日本語テキスト", "emoji \U0001F600 \U0001F680", "quote\" back\\slash", "line\nbreak\ttab",
-           "ctrl\u0001\u001f", "nul\u0000in", " leading and trailing ", "ÿ" * 7, "0", "null", "true", "{\"k\":1}", "[1,2]", "2020-01-17"]
+           "ctrl\u0001\u001f", "nul\u0000in", " leading and trailing ", "ÿ" * 7, "0", "null", "true", "{\"k\":1}", "[1,2]", "2020-01-17",
+           # characters that some line-splitting routines take for line ends although JSON does not escape them
+           "next\u0085line", "line\u2028sep and para\u2029sep", "form\x0cfeed and vt\x0b", "bom\ufeffinside"]
 
 
 def f32(x: float) -> float:
